@@ -6,6 +6,7 @@ Property theorems only (helper lemmas: TFVerif/Proofs/Chunk.lean).  The model is
 TFVerif/Model/Chunk.lean; `callArgs` is the list of argument lists of the successive calls.
 -/
 import TFVerif.Proofs.Chunk
+import TFVerif.Proofs.ChunkOrder
 
 namespace TFVerif.C16
 open TFVerif.Chunk
@@ -166,6 +167,34 @@ example :
               ("mask", { numRows := 3, numCols := 1, values := [1, 1, 1, 1, 1], offset := [0, 2, 5, 5] })]
     ∧ tokenizeColumn (pyTable .object) (tokMapping ["ids", "mask"] g) none [.str "ab", .missing .nan, .str ""]
       = tokenizeColumn (pyTable .object) (tokSentences ["ids", "mask"] g) (some 2) [.str "ab", .missing .nan, .str ""] := by
+  decide
+
+/-! ### per-sentence mappings are keyed: the order in which a mapping lists its keys is irrelevant -/
+
+/-- **Key order of the per-sentence mappings (unbatched).**  In the "list of per-sentence mappings" format the
+    tensors are looked up BY KEY: re-ordering the entries of every later sentence's mapping in any way (`σ`,
+    each mapping having distinct keys) leaves the assembled rows unchanged; the first sentence only fixes the
+    order in which the keys of the result are listed. -/
+theorem sentence_key_order_irrelevant (d0 : List (Key × List V)) (ds : List (List (Key × List V)))
+    (σ : List (Key × List V) → List (Key × List V))
+    (h : ∀ d ∈ ds, (σ d).Perm d ∧ (d.map Prod.fst).Nodup) :
+    assembleUnbatched (.sentences (d0 :: ds.map σ)) = assembleUnbatched (.sentences (d0 :: ds)) :=
+  assembleUnbatched_reorder d0 ds σ h
+
+/-- the same for batched operation: every chunk's sentences may list their keys in any order -/
+theorem sentence_key_order_irrelevant_batched (d0 : List (Key × List V)) (l0 : List (List (Key × List V)))
+    (outs : List (TokOut V)) (σ : List (Key × List V) → List (Key × List V))
+    (h0 : ∀ d ∈ l0, (σ d).Perm d ∧ (d.map Prod.fst).Nodup) (h : ∀ o ∈ outs, ReordersOnly σ o) :
+    assembleBatched (.sentences (d0 :: l0.map σ) :: outs.map (reorderOut σ))
+      = assembleBatched (.sentences (d0 :: l0) :: outs) :=
+  assembleBatched_reorder d0 l0 outs σ h0 h
+
+/-- non-vacuity: the second sentence lists `mask` before `ids`; filing by position would swap its tensors -/
+example :
+    assembleUnbatched (.sentences [[("ids", [1, 2]), ("mask", [1, 1])], [("mask", [1]), ("ids", [7])]])
+      = some [("ids", [[1, 2], [7]]), ("mask", [[1, 1], [1]])] ∧
+    assembleUnbatched (.sentences ([("ids", [1, 2]), ("mask", [1, 1])] :: [[("ids", [7]), ("mask", [1])]].map List.reverse))
+      = assembleUnbatched (.sentences [[("ids", [1, 2]), ("mask", [1, 1])], [("ids", [7]), ("mask", [1])]]) := by
   decide
 
 end TFVerif.C16
